@@ -270,6 +270,9 @@ class Renderer(object):
             return "(try %s catch E in { %s; true => throw E; never }%s)" % (self.ex(x["body"]), hs, fin)
         if e == "error":
             return "error %s" % esc(x.get("msg", "halt"))
+        if e == "where":
+            defs = "; ".join("%s: %s == %s" % (self.nm(dd["x"]), tname(dd["t"]), self.ex(dd["v"])) for dd in x["defs"])
+            return "(%s where { %s })" % (self.ex(x["body"]), defs)
         if e == "acall":
             return "(%s(%s)$AD%d)" % (x["op"], ", ".join(self.ex(a) for a in x["args"]), x["adt"])
         if e == "per":
@@ -479,6 +482,11 @@ def _fun_refs(body, bound):
                         walk(v, bnd)
                 walk(x.get("filt"), bnd | {x["x"]})
                 walk(x["body"], bnd | {x["x"]})
+                return
+            if e == "where":
+                for dd in x["defs"]:
+                    walk(dd["v"], bnd)
+                walk(x["body"], bnd | set(dd["x"] for dd in x["defs"]))
                 return
             if e == "collect":
                 walk(x["src"], bnd)
